@@ -386,43 +386,62 @@ impl ProcfsHandle {
             Err(_) => return self.open(base, subpath, oflags).map(File::from),
         }
 
-        // Get a no-follow handle to the parent of the magic-link.
-        let (parent, trailing) = utils::path_split(subpath)?;
-        let trailing = trailing.ok_or_else(|| ErrorImpl::InvalidArgument {
-            name: "path".into(),
-            description: "proc_open_follow path has trailing slash".into(),
-        })?;
+        // The rest operates on the link's parent directory inside one procfs
+        // handle (normally this one).
+        let open_in = |procfs: &Self| -> Result<File, Error> {
+            // Get a no-follow handle to the parent of the magic-link.
+            let (parent, trailing) = utils::path_split(subpath)?;
+            let trailing = trailing.ok_or_else(|| ErrorImpl::InvalidArgument {
+                name: "path".into(),
+                description: "proc_open_follow path has trailing slash".into(),
+            })?;
 
-        let parent = self.open(base, parent, OpenFlags::O_PATH | OpenFlags::O_DIRECTORY)?;
+            let parent = procfs.open(base, parent, OpenFlags::O_PATH | OpenFlags::O_DIRECTORY)?;
 
-        // Rather than using self.mnt_id for the following check, we use the
-        // mount ID from parent. This is necessary because ProcfsHandle::open
-        // might create a brand-new procfs handle with a different mount ID.
-        // However, ProcfsHandle::open already checks that the mount ID and
-        // fstype are safe, so we can just reuse the mount ID we get without
-        // issue.
-        let parent_mnt_id = utils::fetch_mnt_id(&parent, "")?;
+            // Rather than using self.mnt_id for the following check, we use the
+            // mount ID from parent. This is necessary because ProcfsHandle::open
+            // might create a brand-new procfs handle with a different mount ID.
+            // However, ProcfsHandle::open already checks that the mount ID and
+            // fstype are safe, so we can just reuse the mount ID we get without
+            // issue.
+            let parent_mnt_id = utils::fetch_mnt_id(&parent, "")?;
 
-        // Detect if the magic-link we are about to open is actually a
-        // bind-mount. There is no "statfsat" so we can't check that the f_type
-        // is PROC_SUPER_MAGIC. However, an attacker can construct any
-        // magic-link they like with procfs (as well as files that contain any
-        // data they like and are no-op writeable), so it seems unlikely that
-        // such a check would do anything in this case.
-        //
-        // NOTE: This check is only safe if there are no racing mounts, so only
-        // for the ProcfsHandle::{new_fsopen,new_open_tree} cases.
-        verify_same_mnt(parent_mnt_id, &parent, trailing)?;
+            // Detect if the magic-link we are about to open is actually a
+            // bind-mount. There is no "statfsat" so we can't check that the f_type
+            // is PROC_SUPER_MAGIC. However, an attacker can construct any
+            // magic-link they like with procfs (as well as files that contain any
+            // data they like and are no-op writeable), so it seems unlikely that
+            // such a check would do anything in this case.
+            //
+            // NOTE: This check is only safe if there are no racing mounts, so only
+            // for the ProcfsHandle::{new_fsopen,new_open_tree} cases.
+            verify_same_mnt(parent_mnt_id, &parent, trailing)?;
 
-        syscalls::openat_follow(parent, trailing, oflags, 0)
-            .map(File::from)
-            .map_err(|err| {
-                ErrorImpl::RawOsError {
-                    operation: "open final magiclink component".into(),
-                    source: err,
+            syscalls::openat_follow(parent, trailing, oflags, 0)
+                .map(File::from)
+                .map_err(|err| {
+                    ErrorImpl::RawOsError {
+                        operation: "open final magiclink component".into(),
+                        source: err,
+                    }
+                    .into()
+                })
+        };
+
+        open_in(self).or_else(|err| {
+            // The readlink above may only have succeeded because it was
+            // retried on an unmasked handle (see ProcfsHandle::open). In that
+            // case the link does not exist in this (masked) handle, and ENOENT
+            // from the steps above is an artefact of the masking as well.
+            if self.is_subset && err.kind() == ErrorKind::OsError(Some(libc::ENOENT)) {
+                match Self::new_unmasked() {
+                    Ok(unmasked) if !unmasked.is_subset => open_in(&unmasked),
+                    _ => Err(err),
                 }
-                .into()
-            })
+            } else {
+                Err(err)
+            }
+        })
     }
 
     /// Safely open a path inside `procfs`.
